@@ -309,3 +309,21 @@ Example C17_ex_bound_hyps :
   | None => False
   end.
 Proof. vm_compute. repeat split; try discriminate; repeat constructor. Qed.
+
+(* ---- the monitor of the free-running streams on the stale-miss window (not a soundness proof:
+   two kernel-evaluated logs).  Callers 0 and 1 on key 1; 1 leads, stores 1001 and returns; 0 had
+   started before that, misses, executes fn again (its SetDefault is refused) and returns ITS OWN
+   value 1000: accepted.  The same log in which caller 0 instead returns an error that no
+   execution produced (what a Memoize that forwards SetDefault's refusal does): rejected. *)
+Definition ex_log_benign : list event :=
+  [EStart c0 1; EStart c1 1; EBegin c1 1; EEnd c1 1 (RVal 1001); ERet c1 1 (RVal 1001);
+   EBegin c0 1; EEnd c0 1 (RVal 1000); ERet c0 1 (RVal 1000); EFinal 1 (Some 1001)].
+
+Definition ex_log_foreign_error : list event :=
+  [EStart c0 1; EStart c1 1; EBegin c1 1; EEnd c1 1 (RVal 1001); ERet c1 1 (RVal 1001);
+   EBegin c0 1; EEnd c0 1 (RVal 1000); ERet c0 1 (RErr (-1)); EFinal 1 (Some 1001)].
+
+Example C17_ex_monitor_stale_miss :
+  mon_accepts 2 ex_log_benign = true /\ mon_accepts 2 ex_log_foreign_error = false.
+Proof. vm_compute. split; reflexivity. Qed.
+
